@@ -10,6 +10,7 @@
 #include <igris/container/dlist.h>
 #include <igris/event/safe_queue.h>
 #include <igris/osinter/wait.h>
+#include <igris/sync/semaphore.h>
 #include <igris/sync/syslock.h>
 #include <memory>
 #include <mutex>
@@ -761,7 +762,7 @@ struct QueueSizeProg : Program
 // scheduler here: one thread, the real pthread primitives, one fixed history.
 static void soak_single_thread()
 {
-    int which = mc::choose(2);
+    int which = mc::choose(3);
     const int steps = mc::thorough() ? 1000000 : 150000;
     mc::nontrivial();
     if (which == 0)
@@ -813,6 +814,33 @@ static void soak_single_thread()
         }
         mc::outcome("syslock soak");
     }
+    else if (which == 2)
+    {
+        mc::describe("igris::semaphore: %d wait/post cycles on one semaphore, value observed through getvalue()", steps);
+        mc::crash_context("C20.soak.semaphore.crash");
+        igris::semaphore s(1), s3(3);
+        for (int i = 0; i < steps; i++)
+        {
+            s.wait();
+            int v0 = s.getvalue();
+            s.post();
+            int v1 = s.getvalue();
+            // a counting semaphore: take two of three, look, give them back
+            s3.wait();
+            s3.trywait();
+            int w1 = s3.getvalue();
+            s3.post();
+            s3.post();
+            int w3 = s3.getvalue();
+            if (v0 != 0 || v1 != 1 || w1 != 1 || w3 != 3)
+            {
+                mc::violation("C20.soak.semaphore.value", "cycle %d: binary semaphore %d after wait / %d after post (want 0/1), counting semaphore %d / %d (want 1/3)", i,
+                              v0, v1, w1, w3);
+                return;
+            }
+        }
+        mc::outcome("semaphore soak");
+    }
     else
     {
         mc::describe("safe_queue: %d push/pop operations on one queue, fill level sweeping 0..45", steps);
@@ -851,7 +879,7 @@ static void soak_single_thread()
 }
 
 // ------------------------------------------------------------------ registration
-static void add_one(const std::string &pname, std::function<Program *()> make, int b, int spurious, bool thorough_only);
+static void add_one(const std::string &pname, std::function<Program *()> make, int b, int spurious, bool thorough_only, bool post_release = false);
 static void add_prog(const std::string &pname, std::function<Program *()> make, int qbound, int tbound)
 {
     // bound qbound contains every smaller bound; bound 0 is kept as the cheap sanity level
@@ -860,15 +888,16 @@ static void add_prog(const std::string &pname, std::function<Program *()> make, 
     if (tbound != qbound)
         add_one(pname, make, tbound, 0, true);
 }
-static void add_one(const std::string &pname, std::function<Program *()> make, int b, int spurious, bool thorough_only)
+static void add_one(const std::string &pname, std::function<Program *()> make, int b, int spurious, bool thorough_only, bool post_release)
 {
     {
         {
-        mc::add_check(spurious ? mc::fmt("%s.pb%d.spurious%d", pname.c_str(), b, spurious) : mc::fmt("%s.pb%d", pname.c_str(), b), [=] {
+        mc::add_check(spurious ? mc::fmt("%s.pb%d.spurious%d", pname.c_str(), b, spurious) : post_release ? mc::fmt("%s.pb%d.after_release", pname.c_str(), b) : mc::fmt("%s.pb%d", pname.c_str(), b), [=] {
             int shard = mc::choose(NSHARD);
             sched::Options o;
             o.preemption_bound = b;
             o.spurious_bound = spurious;
+            o.post_release_points = post_release;
             o.shard = shard;
             o.nshard = NSHARD;
             o.shard_depth = 6;
@@ -910,7 +939,11 @@ MC_INIT
 {
     mc::add_check("soak_single_thread", soak_single_thread);
     for (int v = 0; v < 4; v++)
+    {
         add_prog(LockProg(v).name, [v] { return new LockProg(v); }, 2, 3);
+        // + a scheduling point right after every release: bookkeeping a thread does AFTER giving the lock away
+        add_one(LockProg(v).name, [v] { return new LockProg(v); }, 2, 0, false, true);
+    }
     for (int v = 0; v < 7; v++)
     {
         add_prog(WaitProg(v).name, [v] { return new WaitProg(v); }, 2, 3);
